@@ -343,23 +343,23 @@ Section Proofs.
         * intros I. apply Ni. now right.
   Qed.
 
-  Definition wf_gens (fuel : nat) (F G : Z) (derive_k canonical : bool) (p q k0 h : Z) (gs : list Z) : Prop :=
+  Definition wf_gens (fuel : nat) (F G : Z) (sign_test derive_k canonical : bool) (p q k0 h : Z) (gs : list Z) : Prop :=
     let k := if derive_k then (p - 1) / q else k0 in
-    (derive_k = true -> q <> 0) /\ wf_core F G p q k /\
+    (sign_test || derive_k = true -> 0 < q) /\ wf_core F G p q k /\
     Forall (fun x => mpz_powm x q p = Some 1) (h :: gs) /\
     Forall (fun x => 1 < x < p - 1) (h :: gs) /\ NoDup (h :: gs) /\
     canon_ok fuel canonical p q k (hd 0 gs).
 
-  Theorem check_group_gens_iff fuel F G derive_k canonical p q k0 h gs :
-    check_group_gens is_prime H fuel F G derive_k canonical p q k0 h gs = Accept
-    <-> wf_gens fuel F G derive_k canonical p q k0 h gs.
+  Theorem check_group_gens_iff fuel F G sign_test derive_k canonical p q k0 h gs :
+    check_group_gens is_prime H fuel F G sign_test derive_k canonical p q k0 h gs = Accept
+    <-> wf_gens fuel F G sign_test derive_k canonical p q k0 h gs.
   Proof.
     unfold check_group_gens, wf_gens, canon_ok.
     set (k := if derive_k then (p - 1) / q else k0).
-    destruct (derive_k && (q =? 0)) eqn:Ed.
-    { split; [discriminate|]. intros (Q & _). apply andb_true_iff in Ed. destruct Ed as [-> E0]. specialize (Q eq_refl). lia. }
-    assert (Q : derive_k = true -> q <> 0).
-    { intros ->. cbn in Ed. lia. }
+    destruct ((sign_test || derive_k) && (q <=? 0)) eqn:Ed.
+    { split; [discriminate|]. intros (Q & _). apply andb_true_iff in Ed. destruct Ed as [E1 E0]. specialize (Q E1). lia. }
+    assert (Q : sign_test || derive_k = true -> 0 < q).
+    { intros E. rewrite E in Ed. cbn in Ed. lia. }
     rewrite <- check_core_iff.
     destruct (check_core is_prime F G p q k); cbn [negb].
     2:{ split; [discriminate|]. intros (_ & E & _). discriminate. }
@@ -380,6 +380,36 @@ Section Proofs.
       assert (in_range h p = true) by (unfold in_range; lia).
       assert (others_ok h p gs = true) by (apply others_ok_iff; auto).
       rewrite H0, H1 in Er. discriminate.
+  Qed.
+
+  (* with the sign test the order test is the textbook one and the check cannot die *)
+  Theorem check_group_gens_order fuel F G sign_test derive_k canonical p q k0 h gs :
+    sign_test || derive_k = true ->
+    check_group_gens is_prime H fuel F G sign_test derive_k canonical p q k0 h gs = Accept ->
+    0 < q /\ prime p /\ prime q /\ Forall (fun x => x ^ q mod p = 1) (h :: gs).
+  Proof.
+    intros St E. apply check_group_gens_iff in E. destruct E as (Q & (_ & _ & _ & Pp & Pq & _) & Fo & Fr & _).
+    specialize (Q St). inversion Fr as [|? ? Rh _]. subst. assert (0 < p) by lia.
+    rewrite Z.abs_eq in Pp, Pq by lia. splits; auto.
+    rewrite Forall_forall in *. intros x Ix. specialize (Fo x Ix). rewrite mpz_powm_pos in Fo by lia. congruence.
+  Qed.
+
+  Theorem check_group_gens_no_crash fuel F G sign_test derive_k p q k0 h gs :
+    sign_test || derive_k = true ->
+    check_group_gens is_prime H fuel F G sign_test derive_k false p q k0 h gs <> Crash.
+  Proof.
+    intros St. unfold check_group_gens. rewrite St. cbn [andb].
+    destruct (Z.leb_spec q 0); [discriminate|].
+    set (k := if derive_k then (p - 1) / q else k0).
+    destruct (check_core is_prime F G p q k) eqn:Ec; cbn [negb]; [|discriminate].
+    apply check_core_iff in Ec. destruct Ec as (_ & _ & _ & Pp & _).
+    assert (Np : p <> 0) by (intros ->; cbn in Pp; destruct Pp; lia).
+    assert (O : forall xs, orders_ok xs q p <> Crash).
+    { induction xs as [|x r IH]; cbn [orders_ok]; [discriminate|].
+      unfold mpz_powm. destruct (Z.eqb_spec p 0); [contradiction|]. destruct (Z.leb_spec 0 q); [|lia].
+      destruct (_ =? 1); [exact IH|discriminate]. }
+    specialize (O (h :: gs)). destruct (orders_ok (h :: gs) q p); try discriminate; try contradiction.
+    destruct (negb _); discriminate.
   Qed.
 
   (* ---- quadratic-residue group ------------------------------------------------------------------------------ *)
